@@ -18,7 +18,7 @@ Inductive case :=
                                              class name, one after the other in one process; the model has
                                              no state: every step is answered by its own enumeration *)
 
-Definition omember (m : member) : obs := OL [OZ (fst m); OZ (snd m)].
+Definition omember (m : member) : obs := OL [OZ (mid m); OZ (Z.of_nat (midx m)); OS (mname m)].
 Definition ozs (l : list Z) : obs := olist OZ l.
 
 Definition round_obs (e : enum) (x : input) : obs :=
